@@ -144,6 +144,10 @@ def writer_main(jobfile):
         try:
             p = gen_map.build(spec)
             inputs = gen_map.make_inputs(spec, "list")
+            scope = case.get("scope")
+            if scope:  # every parameter and output name gets the prefix "<scope>." (file names then contain dots)
+                p.update_scope(scope, inputs="*", outputs="*")
+                inputs = {f"{scope}.{k}": v for k, v in inputs.items()}
             created = {}
             orig = RunInfo.create.__func__
 
@@ -155,12 +159,17 @@ def writer_main(jobfile):
             try:
                 with contextlib.redirect_stdout(io.StringIO()), warnings.catch_warnings():
                     warnings.simplefilter("ignore")
-                    r = p.map(dict(inputs), run_folder=folder, internal_shapes=gen_map.internal_shapes_arg(spec), parallel=False,
+                    ish = gen_map.internal_shapes_arg(spec)
+                    if scope and ish:
+                        ish = {f"{scope}.{k}": v for k, v in ish.items()}
+                    r = p.map(dict(inputs), run_folder=folder, internal_shapes=ish, parallel=False,
                               storage=storage_arg(case["storage"]), persist_memory=True)
             finally:
                 RunInfo.create = classmethod(orig)
-            names = [o for f in spec["funcs"] for o in f["outs"]]
+            names = [(f"{scope}.{o}" if scope else o) for f in spec["funcs"] for o in f["outs"]]
             expect = {"outputs": {o: terms.T(r[o].output) for o in names}, "runinfo": runinfo_fields(created["ri"]), "names": names}
+            # what the run was GIVEN (RunInfo.create may already hold wrong values if the inputs were mangled on the way in)
+            expect["runinfo"]["inputs"] = {n: terms.T(v) for n, v in sorted(inputs.items())}
             # the same-process xarray observation is the expectation for the fresh process
             expect["xarray"] = observe("X", folder, names)["xarray"]
             with open(os.path.join(job["base"], f"expect{k}.json"), "w") as fh:
@@ -273,6 +282,10 @@ def run_unit(unit):
         for st in sts:
             cases.append({"spec": spec, "storage": st})
             keys.append((gen_map.key(spec), str(st)) if gen_map.nontrivial(spec) else None)
+        if len(spec["funcs"]) == 1 and len(spec["roots"]) >= 2:
+            # scoped names ("s.x", "s.y"): inputs and outputs whose file names contain a dot
+            cases.append({"spec": spec, "storage": "file_array", "scope": "s"})
+            keys.append((gen_map.key(spec), "scoped") if gen_map.nontrivial(spec) else None)
     if not cases:
         return acc
     res = run_batch(cases, seq)
@@ -287,7 +300,8 @@ def run_unit(unit):
 
 
 def replay(art):
-    res = run_batch([{"spec": art["spec"], "storage": art["storage"]}], art.get("seq") or de_bruijn("ORX", 2))
+    case = {k: art[k] for k in ("spec", "storage", "scope") if k in art}
+    res = run_batch([case], art.get("seq") or de_bruijn("ORX", 2))
     return [s for s, _ in res[0]]
 
 
